@@ -57,11 +57,11 @@ def run_img(flags, load=False, with_flags=True, trigger=None):
     E = session.emitted_preterminals(ctx)
     ends = [e["first_line"] for e in E[1:]] + [ctx.nlines]
     for e, end in zip(E, ends):
-        e["lines"] = r.lines[e["first_line"]:end]
+        e["lines"] = ctx.guesses[e["first_line"]:end]
     r.emitted = E
     r.remainder = []
     for call in ctx.restore_omen_calls:
-        r.remainder.extend(r.lines[call[1]:call[2] if call[2] is not None else ctx.nlines])
+        r.remainder.extend(ctx.guesses[call[1]:call[2] if call[2] is not None else ctx.nlines])
     return r
 
 
